@@ -1555,7 +1555,8 @@ def toc_stream(run, rng, thorough):
 def check(run):
     rng = random.Random(run.seed * 7919 + 15)
     thorough = run.tier == 'thorough'
-    common.prove(run, 'C15', ['model/C15Style.vo', 'model/C15StyleSpec.vo', 'model/C15Scope.vo', 'model/C15Loop.vo'])
+    common.prove(run, 'C15', ['model/C15Style.vo', 'model/C15StyleSpec.vo', 'model/C15Scope.vo', 'model/C15Loop.vo',
+                              'proofs/C15_gen_rest.vo'])
     run.trusted += ['Coq 8.16.1 kernel (coqc); vm_compute for the cases.v evaluation',
                     'harness/p_c15.py printers of dictionary entries / DOM trees as Coq terms; harness/impl_c15.py',
                     'hand-written models model/C15Style.v (counters.py) and model/C15Scope.v (build.py): validated on '
@@ -1565,8 +1566,10 @@ def check(run):
                     'toc-renders monitor judged in Python',
                     'harness/p_c15.py ref_sheet: the reference reading of @counter-style rules (grammar of every descriptor of '
                     'CSS Counter Styles 3 section 3 over tinycss2 tokens), which gives the dictionary the specification is judged on',
-                    'source tie (props C15_source_*): tools/py2coq.py (printer, option <branch>) and the interpreter '
-                    'coq/base/Py.v with its primitives prim_apply (len, x[i], %, //, abs, join, reversed); '
+                    'source tie (props C15_source_*): tools/py2coq.py (printer, slice options <branch> / <after-chain>, '
+                    '<until-chain> / <from-to>, target options seq_ops, unpack_gen, for_break: a for loop with break printed with the flag %brk) and the interpreter '
+                    'coq/base/Py.v with its primitives prim_apply (len, x[i], %, //, abs, join, reversed, and + * len on '
+                    'strings / lists: PSeqAdd, PSeqMul, PSeqLen); '
                     'model/C15Builtins.v: Python strings as Coq strings (one character per ascii), a symbol as '
                     '(\'string\', s) / (\'url\', u)']
     run.assumptions += ['the re-layout loop theorem is about an abstract model (model/C15Loop.v); the implementation side is the '
@@ -1576,10 +1579,14 @@ def check(run):
                         'pad counts code points (Python len); CSS counts grapheme clusters: symbols with combining marks are not generated',
                         'counter scoping: instantiation of a counter by a bare counter()/counters() use (CSS Lists 3) is not part of '
                         'the property text and not demanded',
-                        'regenerated from counters.py and proved equal to the model for every input: symbol() and the cyclic, '
-                        'fixed, alphabetic and numeric branches of render_value (step 3); the recursive call of render_value is '
-                        'an oracle there; resolve_counter, the extends loop, the range test, the symbolic and additive branches '
-                        'and steps 4-6 (pad, negative) are tied to the model by the correspondence streams only']
+                        'regenerated from counters.py and proved equal to the model for every input: symbol() and every '
+                        'statement of render_value after the `while extends:` loop, in slices: step 2 (the range test; `inf` an '
+                        'input above |value|; a range that is the string auto itself - anonymous styles - is outside), the head of '
+                        'step 3 (is_negative, the negative symbols, use_negative, abs), its six branches (cyclic, fixed, symbolic, '
+                        'alphabetic, numeric, additive with its closing fallback call) and steps 4-6 (pad, negative prefix / '
+                        'suffix, return); the recursive call of render_value is an oracle there; the hand-over of the variables '
+                        'between the slices, resolve_counter and the extends loop are tied to the model by the correspondence '
+                        'streams only; Python strings are Coq strings (characters below 256)']
     # ---- stream a: predefined styles
     (st, ua), = common.run_impl('impl_c15', 'ua_dump', [None])
     if st != 'ok':
